@@ -177,6 +177,8 @@ func checkC18(w *World, r *Report) {
 	l2(w, r)
 	l3(w, r)
 	l5(w, r)
+	l6(w, r)
+	r.Floor("L-6", 1, "what marks an item for the next commit")
 	r.Floor("L-5", 1, "sentinel errors compared by identity")
 	r.Floor("L-1", 3, "exploration + positive controls")
 	r.Floor("L-2", 3, "tree ownership")
@@ -188,6 +190,77 @@ func checkC18(w *World, r *Report) {
 // other error refuses the transaction). Every module function whose error result
 // reaches such a comparison must hand back the sentinel itself — a wrapped copy
 // (`ErrX.Wrapf(…)`) is a different object and is taken for a failure.
+// L-6: only a write marks an item for the next commit. The overlay's read cache
+// survives commits while a restart empties it, and an iavl leaf carries the
+// version it was last written in: if a mere read (a cache miss filled from the
+// tree) put the item among the updated ones, Commit would rewrite an unchanged
+// value exactly on the nodes whose cache had been emptied — same values, different
+// root hash. The insertions into `updatedItems` are therefore reachable, within the
+// package, only from Set / SetFinality.
+func l6(w *World, r *Report) {
+	markers := map[*ssa.Function]ssa.Instruction{}
+	for _, fn := range w.ModuleFuncs() {
+		if !inLedgerPkg(w, fn) {
+			continue
+		}
+		for _, b := range fn.Blocks {
+			for _, in := range b.Instrs {
+				if mu, ok := in.(*ssa.MapUpdate); ok && w.isFieldLoad(mu.Map, "", "updatedItems") {
+					f := fn
+					if o := f.Origin(); o != nil {
+						f = o
+					}
+					markers[f] = in
+				}
+			}
+		}
+	}
+	if len(markers) == 0 {
+		r.Undecided("L-6", "markers", "no insertion into memItems.updatedItems found in the ledger package")
+		return
+	}
+	allowed := map[string]string{"ledger.(*SimpleLedger).Set": "a write through the mempool overlay", "ledger.(*FinalityLedger).SetFinality": "a write through the consensus overlay"}
+	var fns []*ssa.Function
+	for f := range markers {
+		fns = append(fns, f)
+	}
+	sort.Slice(fns, func(i, j int) bool { return w.FName(fns[i]) < w.FName(fns[j]) })
+	for _, f := range fns {
+		key := "marks-for-commit:" + w.FName(f)
+		if _, ok := allowed[w.FName(f)]; ok {
+			r.OK("L-6", key, "a write marks the item", site(w, markers[f]))
+			continue
+		}
+		// every caller chain inside the package ends in Set / SetFinality
+		bad := ""
+		seen := map[*ssa.Function]bool{}
+		var climb func(g *ssa.Function, d int)
+		climb = func(g *ssa.Function, d int) {
+			if seen[g] || d > 5 || bad != "" {
+				return
+			}
+			seen[g] = true
+			cs := w.nodeCallers(g)
+			if len(cs) == 0 && d > 0 {
+				return
+			}
+			for _, c := range cs {
+				name := w.FName(c.Caller)
+				if _, ok := allowed[name]; ok {
+					continue
+				}
+				if !inLedgerPkg(w, c.Caller) || (c.Caller.Object() != nil && c.Caller.Object().Exported()) {
+					bad = name
+					return
+				}
+				climb(c.Caller, d+1)
+			}
+		}
+		climb(f, 0)
+		r.Check(bad == "", "L-6", key, "reached only from Set / SetFinality", "an item is put among the updated ones by "+bad+", which is not a write: a read then makes Commit rewrite an unchanged value, but only on a node whose read cache is empty (after a restart) — the root hashes diverge", site(w, markers[f]))
+	}
+}
+
 func l5(w *World, r *Report) {
 	isSentinel := func(v ssa.Value) *ssa.Global {
 		ld, ok := stripConv(v).(*ssa.UnOp)
